@@ -1,11 +1,24 @@
+import os
+
+# The race detector writes its reports to <log_path>.<pid of the harness>; the harness reads them after every round and
+# turns a report into a violation with the round that produced it.  The prefix is unique per check process so that two
+# checks of C08 running at the same time (e.g. one against a scratch worktree) never read each other's reports.
+# exitcode=0: the verdict travels through result.json (and the harness commits one deliberate race on a variable of its
+# own at start to make sure the detector's reports do reach it).
+_RACE_LOG = os.path.join(os.environ.get("VERIF_BUILD") or os.path.join(os.path.dirname(os.path.dirname(os.path.dirname(os.path.abspath(__file__)))), ".build"),
+                         "c08_race_%d" % os.getpid())
+
 SPEC = dict(
     id="C08",
     props_file="Props/C08.v",
     harness=[
         dict(pkg="store/cache", test="TestVerifC08Cache", timeout=600, timeout_thorough=3000),
         dict(pkg="store", test="TestVerifC08", timeout=900, timeout_thorough=3000),
-        dict(pkg="store", test="TestVerifC08Race", timeout=900, timeout_thorough=3000, race=True,
-             env=dict(GORACE="log_path=/verif/.build/c08_race halt_on_error=0")),
+        # pkg "store/." (= ./store): the driver names the test binary after pkg, and the plain and the -race binary of one
+        # package would otherwise overwrite each other, so that both are re-linked (20-90 s each) on every run even when
+        # nothing changed
+        dict(pkg="store/.", test="TestVerifC08Race", timeout=900, timeout_thorough=3000, race=True,
+             env=dict(GORACE="log_path=%s halt_on_error=0 exitcode=0" % _RACE_LOG)),
     ],
     translators=["locks"],
     allowed_axioms=[],
